@@ -144,3 +144,19 @@ package batch
 //@     invariant beInv(be)
 //@     invariant forall k types.String :: k != u.Key ==> (has(be.Values, k) == has(prevState.Values, k) && be.Values[k] == prevState.Values[k])
 //@     invariant chPrincipal == cloneSub#1(loopEnv.Principal, u.Key, types.Value(types.Boolean(true))) && chAction == cloneSub#1(loopEnv.Action, u.Key, types.Value(types.Boolean(true))) && chResource == cloneSub#1(loopEnv.Resource, u.Key, types.Value(types.Boolean(true))) && chContext == cloneSub#1(loopEnv.Context, u.Key, types.Value(types.Boolean(true)))
+
+// Variable discovery: exactly the variables that occur in the request part - at top level, under any
+// record key, inside any set - are added (C05: a variable nested in a set among other members is still
+// enumerated; unbound/unused detection is decided on this set).
+//@ func findVariables
+//@   props C05
+//@   modifies found
+//@   requires found != nil
+//@   ensures found != nil
+//@   ensures exact: forall k types.String :: has(found.m, k) == (has(old(found).m, k) || mentions(r, k))
+//@   loop 1
+//@     invariant found != nil
+//@     invariant forall k types.String :: has(found.m, k) == (has(old(found).m, k) || (exists vv types.Value :: $done[vv] && mentions(vv, k)))
+//@   loop 2
+//@     invariant found != nil
+//@     invariant forall k types.String :: has(found.m, k) == (has(old(found).m, k) || (exists vv types.Value :: $done[vv] && mentions(vv, k)))
